@@ -42,7 +42,7 @@ KINDS = ["extends", "extends", "extends", "extends", "groups", "groups", "random
 
 
 def budget(tier):
-    return 3000 if tier == "quick" else 90000
+    return 3000 if tier == "quick" else 360000
 
 
 # ---------------------------------------------------------------------------
